@@ -19,6 +19,14 @@ TEXT = {
              design_ref="3/C04", level_note=_NOTE + "; liveness is bounded: completion within 64 x serial step count + 10000 productive steps", technique=_DST + " and thread-creation faults; bounded liveness by step budget"),
  "C05": dict(level_text="ASan build of the whole library under simulated schedules plus a slot-bound monitor at every L-supernode allocation (the check the library has #if 0'd) for static and dynamic storage, and undersized sp_ienv(6/7/8) as injected faults whose only legal outcomes are the library's diagnostic or a correct result",
              design_ref="3/C05", level_note=_NOTE + "; overruns inside one heap block are only visible through the slot monitor", technique=_DST + " and undersized-tunable faults; ASan + allocation-slot invariants"),
+ "C06": dict(level_text="seeded exploration of singular inputs (explicit zero columns/rows, structurally empty columns/rows, Hall violations, duplicated columns, several singular columns in different workers) through both drivers and p?gstrf under simulated schedules and ASan; info must equal the first column at which the library itself saw an all-zero candidate set, must agree with symbolic elimination where that guarantees an exact zero, no solution may be written, returned objects must be inspectable and destroyable",
+             design_ref="3/C06", level_note=_NOTE + "; crashes and slot overruns in this profile count for C06 as well (never by crash or corruption)", technique=_DST + " over singular inputs; oracle = library-observed zero pivots cross-checked by symbolic elimination"),
+ "C07": dict(level_text="seeded exploration of p?gssvx over trans x storage x fact (incl. FACTORED after a first call) x forced equilibration outcomes x precision under simulated schedules; A_out/B_out against equed/R/C, true componentwise backward error of X against the original system in the contracting class, and the unrefined residual bound through ?gstrs with the returned factors in every class",
+             design_ref="3/C07", level_note=_NOTE + "; the option lattice is configuration sampling, the schedule-dependent part is the layout of the factors the solves consume", technique=_DST + "; oracle = extended-precision backward error and scaling identities"),
+ "C12": dict(level_text="seeded exploration of p?gssvx: rcond between the true reciprocal condition number and the estimator's first-step bound (reference inverse in long double, norm chosen by the user's transpose option), info = n+1 iff rcond < eps with X still delivered, reciprocal pivot growth recomputed from the returned factors; forest elimination trees and >= 2 threads make supernode numbers non-monotone",
+             design_ref="3/C12", level_note=_NOTE + "; rcond bounds only in the admitted class cond*growth*n*eps <= 1e-3 and u >= 0.1", technique=_DST + "; oracle = reference inverse in extended precision"),
+ "C13": dict(level_text="seeded exploration of p?gssvx: berr against the true componentwise backward error of the returned X for the equilibrated system in the requested transpose sense (|re|+|im| magnitudes in the complex precisions, as the library and LAPACK define it), berr <= 4(n+1)eps for cond < 1/sqrt(eps), ferr times the LAPACK slack 10 against the error versus a refined long-double reference solution",
+             design_ref="3/C13", level_note=_NOTE, technique=_DST + "; oracle = extended-precision reference solution and backward error"),
  "C09": dict(level_text="structural oracle over every successful factorization of the explored runs: permutations, supernode partition and maps, row-list shape, extent disjointness, nnz recounts, dependency order of supernode numbers; layouts are schedule-dependent (numbering order != storage order is probed)",
              design_ref="3/C09", level_note=_NOTE, technique=_DST + "; structural oracle over returned L/U"),
 }
